@@ -105,13 +105,23 @@ def check(case, ev):
     spec_boolean = all(n.get("fix") is None for n in _nodes) and all(i in oracle.spec_leaves(spec) for i in lv) \
         and (all(n["k"] != "leaf" or n["b"][0] >= 0 for n in _nodes) or not any(n["k"] == "Imply" for n in _nodes)) \
         and max([abs(v) for n in _nodes if n["k"] == "leaf" for v in n["b"]] + [0]) <= 10 ** 6
+    _spec_lv = oracle.spec_leaves(spec)
+    _missing = sorted(i_ for i_ in _spec_lv if i_ not in lv)
+    if len(_missing) > 4:
+        spec_boolean = False
     for env in common.assignments(case, lv):
         n_all += 1
         memo = {}
         built_value = oracle.obj_value(m, env, memo=memo)
         if spec_boolean and n_all <= 64:
-            want = oracle.spec_value(spec, env)
+            # leaves of the written formula that the built object does not have at all are given each of their two bounds
+            for extra in (itertools.product(*[[(i_, b_) for b_ in sorted(set(_spec_lv[i_]))] for i_ in _missing]) if _missing else [()]):
+                env_w = dict(env, **dict(extra))
+                want = oracle.spec_value(spec, env_w)
+                if built_value != want:
+                    break
             if built_value != want:
+                env = env_w
                 raise Violation(f"the built model evaluates to {built_value} on {env} but the written formula is {'true' if want else 'false'} there "
                                 f"(negation pushed inwards must keep the meaning)")
         if built_value != 1:
